@@ -117,6 +117,23 @@ func (e *Exec) callRepo(f *ssa.Function, args []Term, x *ssa.Call) val {
 			e.obligePre(f, t.t, x)
 		}
 	}
+	// the postconditions at this call site, stated for the actual arguments (the preconditions are proof obligations of
+	// their own, so no quantified guard is needed here; quantified postconditions are instantiated at the goal constants)
+	if ct != nil && e.parent == nil {
+		env := e.g.calleeEnv(f, args)
+		for _, cl := range ct.clauses {
+			if cl.kind != "ensures" || !e.g.tagAllowed(cl.tags) || e.w.clauseIsFinding(f, cl, cl.ord) {
+				continue
+			}
+			env.instAt = e.root().goalSk
+			t := env.tr(cl.expr)
+			env.instAt = nil
+			if env.err != "" {
+				break
+			}
+			e.assume(implies(e.reach[e.curBlock], t.t))
+		}
+	}
 	// name results and assume type invariants
 	sig := f.Signature
 	var out []Term
@@ -279,7 +296,10 @@ func (g *Gen) calleeAxioms(f *ssa.Function) {
 			if cl.kind == "ensures" && g.w.clauseIsFinding(f, cl, cl.ord) {
 				continue // a recorded finding is never used as a premise
 			}
+			// a quantified postcondition is also instantiated at the goal constants of the function being verified
+			env.instAt = g.goalSk
 			t := env.tr(cl.expr)
+			env.instAt = nil
 			if env.err != "" {
 				g.unsupported = fmt.Sprintf("contract of %s: %s", g.w.fnKey(f), env.err)
 				return
@@ -378,7 +398,8 @@ func (e *Exec) builtin(x *ssa.Call, b *ssa.Builtin) {
 	switch b.Name() {
 	case "len":
 		t := args[0].Type()
-		v := e.term(args[0])
+		// reading the length creates no alias of the backing array: no escape is recorded for a cell-backed slice
+		v := e.peekTerm(e.value(args[0]), t)
 		switch t.Underlying().(type) {
 		case *types.Basic:
 			e.defVal(x, "(str_len "+v+")")
